@@ -3,7 +3,7 @@
 id=$1; wt=$2; name=${3:-$id}
 out=/verif/seeded/$name; mkdir -p $out
 cd $wt || exit 9
-git diff --quiet -- src && { echo "no change applied in $wt"; exit 9; }
+git checkout -- src 2>/dev/null; git apply mutation/patch.diff || { echo "patch.diff does not apply"; exit 9; }
 (cmake -G Ninja -B _build -S . -DCMAKE_BUILD_TYPE=Release >/dev/null 2>&1; cmake --build _build >/dev/null 2>&1) || { echo BUILD-FAILED; exit 1; }
 ct=$(ctest --test-dir _build -j8 2>&1 | grep "tests passed")
 SRCS_M="$wt/src/*.cpp $wt/src/place_global/*.cpp $wt/src/place_detailed/*.cpp"
